@@ -1,6 +1,6 @@
-// capacities [256, 300] of the C10/C11 harness
+// capacities [256, 300] (both objects) of the C10/C11 harness
 #include "c10_impl.hpp"
 namespace c10 {
-std::string run_256(const std::vector<std::string>& w) { return run<256>(w); }
-std::string run_300(const std::vector<std::string>& w) { return run<300>(w); }
+std::string run_256_256(const std::vector<std::string>& w) { return run<256, 256>(w); }
+std::string run_300_300(const std::vector<std::string>& w) { return run<300, 300>(w); }
 }
